@@ -249,7 +249,7 @@ class HistoryCheck(BaseCheck):
 
 
 CHECK = HistoryCheck(
-    tiers={'quick': 400, 'thorough': 40_000},
+    tiers={'quick': 400, 'thorough': 20_000},
     rule=('one seed -> a history executed in ONE forked process: 0-4 earlier research.backtest calls that differ from the probe in '
           'exchange name (same name in 60%), spot/futures, leverage and mode, fee, balance, symbols, timeframes, data routes, warm-up, '
           'simulator, hyperparameters and shared_vars traffic - about half of them aborted by an injected fault (exception raised from a '
